@@ -32,7 +32,6 @@ type stats struct {
 	countAll          int
 	countLive         int
 	maxWindow         uint64
-	staleWouldShow    int // reads whose result differs between state(Lo-1)... (informative)
 	kinds             map[string]int
 }
 
@@ -355,7 +354,7 @@ func racingConditionals(recs []*rec) int {
 			if a.Client == b.Client || a.Hi <= b.Lo || b.Hi <= a.Lo {
 				continue
 			}
-			for k := range a.keysOf(cws[i].keys) {
+			for k := range cws[i].keys {
 				if cws[j].keys[k] {
 					n++
 					break
@@ -365,8 +364,6 @@ func racingConditionals(recs []*rec) int {
 	}
 	return n
 }
-
-func (r *rec) keysOf(m map[string]bool) map[string]bool { return m }
 
 // dumpHistory renders the committed history and the log for a failure report.
 func dumpHistory(m *model, recs []*rec, around *rec) map[string]any {
